@@ -635,8 +635,16 @@ func (p *pp) handleMethods(verb rune) (handled bool) {
 		case i.SafeMessager:
 			handled = true
 			defer p.catchPanic(p.arg, verb, "SafeMessager")
-			defer p.startSafeOverride().restore()
-			p.fmtString(v.SafeMessage(), verb)
+			switch verb {
+			case 'v', 's', 'x', 'X', 'q':
+				defer p.startSafeOverride().restore()
+				p.fmtString(v.SafeMessage(), verb)
+			default:
+				// Only the message is safe. The bad verb report shows
+				// the value itself, field by field: not under the safe
+				// override.
+				p.badVerb(verb)
+			}
 			return
 
 		case error:
